@@ -1,6 +1,7 @@
 package vc
 
 import (
+	"os"
 	"fmt"
 	"go/ast"
 	"go/constant"
@@ -72,6 +73,7 @@ type Exec struct {
 	curStmtPos token.Pos
 	closures map[types.Object]*ast.FuncLit
 	boxAx    map[string]bool
+	readKeys map[string]bool // heap field keys read by executed code (not by specifications)
 	floatN   int
 	sendValue ast.Expr // the value expression of the send statement whose assertions are being evaluated
 	loopsUsed map[int]bool
@@ -742,6 +744,9 @@ func (e *Exec) evalIdent(st *State, id *ast.Ident) Term {
 			e.Ctx.DeclareConst(name, e.S.SortOf(o.Type()))
 			e.Assumed["package variable "+o.Pkg().Name()+"."+o.Name()+" treated as an unknown constant"] = true
 			return Term{name, e.S.SortOf(o.Type())}
+		}
+		if os.Getenv("GOVC_DEBUG") != "" {
+			fmt.Printf("DEBUG no value: %s declared at %s (in %s)\n", id.Name, e.P.Fset.Position(o.Pos()), e.fnName())
 		}
 		e.unsupported(id.Pos(), "variable %s has no value", id.Name)
 		return e.Ctx.Fresh("undef_"+id.Name, e.S.SortOf(o.Type()))
